@@ -228,7 +228,12 @@ def run_unit(unit, ctx):
     monitors.HUB.on("assert_valid_covariance", post=on_assert)
     try:
         st = ekf.State(**{s: rng.gauss(0, 1) for s in defn["state"]})
-        cov = monitors.cov_from_matrix(ekf.Covariance, P0, names)
+        p_dtype = None
+        if not defn.get("cov_scale"):
+            P0, p_dtype = gen.typed_cov(rng, P0, p=0.3)
+        cov = monitors.cov_from_matrix(ekf.Covariance, P0, names, dtype=p_dtype)
+        if p_dtype:
+            R.stats.inc(f"histories_started_from_{p_dtype}_covariance")
         n_pred = n_upd = 0
         completed = True
         for step in range(STEPS[ctx["tier"]]):
